@@ -640,13 +640,8 @@ fn rep_sig(s: &str) -> String {
     while let Some(a) = rest.find('⟦') {
         let tail = &rest[a..];
         let Some(b) = tail.find("×~10^") else { break };
-        let end = (b + "×~10^".len() + 1).min(tail.len());
-        let mut e = end;
-        while !tail.is_char_boundary(e) {
-            e += 1;
-        }
-        out.push_str(&tail[..e]);
-        rest = &tail[e..];
+        out.push_str(&tail[..b]);
+        rest = &tail[b + "×~10^".len()..];
     }
     if out.is_empty() { s.chars().take(24).collect() } else { out }
 }
@@ -1258,7 +1253,7 @@ fn search(n: usize, thorough: bool) {
     for (name, src) in known_inputs() {
         inputs.push(mk("known", &name, src));
     }
-    let ns: &[usize] = if thorough { &[1000, 10000, 100000] } else { &[1000, 20000] };
+    let ns: &[usize] = if thorough { &[1000, 10000, 100000] } else { &[1000, 6000] };
     for (name, src) in deep_inputs(ns) {
         let mut i = mk("deep", &name, src);
         if name.starts_with("recursion-no-base") {
@@ -1557,20 +1552,20 @@ fn tie() {
     // (2) recursion limit: depth-n recursion through a switch under limits k
     for k in [5usize, 10, 33] {
         for n in 0..=(k + 3) {
-            for (shape, body) in [("direct", "F ← |1 ⨬(F-1|∘)=0."), ("dipped", "F ← |1 ⨬(⊙∘F-1|∘)=0.")] {
+            for (shape, body) in [("direct", "F ← |1 ⨬(F-1|∘)=0."), ("dipped", "F ← |1 ⨬(◌⊙F 0 -1|∘)=0.")] {
                 let src = format!("{body}\nF {n}");
                 cases.push(("recursion".into(), format!("{{\"shape\":\"{shape}\",\"limit\":{k},\"n\":{n}}}"), src, ST_RUN | ((k as u32) << RECUR_SHIFT), "64"));
             }
         }
     }
-    // (3) signature checker depth: k nested dips
-    for k in 40..=60usize {
-        let src = format!("F ← {}+{}\nF 1 2", "⊙(".repeat(k), ")".repeat(k));
+    // (3) signature checker depth: k nested non-constant array literals (each adds Array + Run to the IR)
+    for k in 20..=32usize {
+        let src = format!("F ← |1 {}1{}\nF 1", "⊂1[".repeat(k), "]".repeat(k));
         cases.push(("nodedepth".into(), format!("{{\"k\":{k}}}"), src, ST_C_LAZY, "64"));
     }
     // (4) box nesting cap of binary / °binary
     for k in 28..=36usize {
-        cases.push(("binary".into(), format!("{{\"k\":{k},\"dir\":\"encode\"}}"), format!("binary ⍥□{k} 1"), ST_RUN, "64"));
+        cases.push(("binary".into(), format!("{{\"k\":{k},\"dir\":\"encode\"}}"), format!("# Experimental!\n⧻binary ⍥□{k} 1"), ST_RUN, "64"));
     }
     // (5) macro expansion depth: chain of k index macros, each expanding the previous one
     for k in 15..=25usize {
@@ -1581,6 +1576,9 @@ fn tie() {
         writeln!(src, "M{}!+ 1 2", to_alpha(k - 1)).unwrap();
         cases.push(("macro".into(), format!("{{\"k\":{k}}}"), src, ST_C_LAZY, "64"));
     }
+    // (6) confirmation of size_guard_refuted: an accepted shape (a zero dimension) whose row length overflows usize
+    cases.push(("refuted".into(), "{\"dims\":[0,10000000000,10000000000]}".into(), "⬚0↙3 ↯0_1e10_1e10 0".into(), ST_RUN, "64"));
+    cases.push(("refuted".into(), "{\"dims\":[4294967296,4294967296,0]}".into(), "↯4294967296_4294967296_0 0".into(), ST_RUN, "64"));
     let mut workers: BTreeMap<&'static str, Worker> = BTreeMap::new();
     for (guard, param, src, mask, mb) in cases {
         let w = workers.entry(mb).or_insert_with(|| Worker::new(mb));
